@@ -325,6 +325,21 @@ def run_case(s):
                 dl = [(x, y) for x, y in zip(a, b) if x != y][:2] or [("<%d lines>" % len(a), "<%d lines>" % len(b))]
                 sec = _section_of(a, dl[0][0])
                 viol.append({"key": "second:text:%s" % sec, "what": "write(wn3) differs from write(wn2) in %s: %r -> %r" % (s["units"], dl[0][0], dl[0][1])})
+            # a model that CAME from a file is written again in another unit system (other flow units; for a chemical model also
+            # the other mass units): nothing remembered from the first file may leak into the second one
+            other = "GPM" if s["units"] != "GPM" else "LPS"
+            if str(wn2.options.quality.parameter).upper() == "CHEMICAL":
+                wn2.options.quality.inpfile_units = "ug/L" if "ug" not in str(wn2.options.quality.inpfile_units).lower() else "mg/L"
+            d2b = json.loads(json.dumps(wntr.network.to_dict(wn2), default=str))
+            p4 = os.path.join(tmp, "m4.inp")
+            wntr.network.write_inpfile(wn2, p4, units=other, version=s["version"])
+            d4 = json.loads(json.dumps(wntr.network.to_dict(wntr.network.read_inpfile(p4)), default=str))
+            seen = set()
+            for k, w in compare(d2b, d4, s["version"], units=other):
+                if k not in seen:
+                    seen.add(k)
+                    viol.append({"key": "rewrite-other-units:%s" % k, "what": "model read from a %s file, written again in %s%s: %s" % (
+                        s["units"], other, " with the other mass units" if str(wn2.options.quality.parameter).upper() == "CHEMICAL" else "", w)})
         except Exception as e:  # noqa
             import traceback
             viol.append({"key": "crash:second-cycle:%s" % type(e).__name__, "what": "second write/read raised %s: %s" % (type(e).__name__, str(e)[:200]),
